@@ -150,7 +150,7 @@ func (dl *datalog) removeSegment(seg *segment) error {
 	}
 
 	// Remove segment meta from FS.
-	metaName := seg.name + segmentExt
+	metaName := seg.name + metaExt
 	if err := dl.opts.FileSystem.Remove(metaName); err != nil && !os.IsNotExist(err) {
 		return err
 	}
